@@ -1,6 +1,8 @@
 package main
 
 import (
+	"sort"
+	"regexp/syntax"
 	"regexp"
 	"fmt"
 	"go/types"
@@ -52,6 +54,18 @@ func init() {
 	reg := func(name string, f intrinsic) { intrinsics[name] = f }
 
 	// ------------------------------------------------------------ symbolic inputs
+	reg(rt+"StrFromCodes", func(ex *Exec, fn *ssa.Function, args []Value, site string) Value {
+		var parts []*Term
+		for _, c := range sliceVals(args[0]) {
+			switch x := c.(type) {
+			case int64:
+				parts = append(parts, mkStr(string(rune(x))))
+			default:
+				parts = append(parts, mkStrOp("str.from_code", SStr, intTerm(c)))
+			}
+		}
+		return lower(mkConcat(parts...))
+	})
 	reg(rt+"NondetString", func(ex *Exec, fn *ssa.Function, args []Value, site string) Value {
 		name := args[0].(string)
 		if ex.concreteMode() {
@@ -240,6 +254,63 @@ func init() {
 			return strings.EqualFold(a, b)
 		}
 		return lower(mkEq(mkStrOp("str.to_lower", SStr, strTerm(args[0])), mkStrOp("str.to_lower", SStr, strTerm(args[1]))))
+	})
+	reg(rt+"StrOver", func(ex *Exec, fn *ssa.Function, args []Value, site string) Value {
+		// every character of s is one of the (concrete, ASCII) alphabet
+		alpha, ok := args[1].(string)
+		if !ok || alpha == "" {
+			panic(pathAbort{"unsupported: symbolic alphabet"})
+		}
+		if s, ok := args[0].(string); ok {
+			for _, c := range s {
+				if !strings.ContainsRune(alpha, c) {
+					return false
+				}
+			}
+			return true
+		}
+		rs := []rune(alpha)
+		sort.Slice(rs, func(i, j int) bool { return rs[i] < rs[j] })
+		var parts []string
+		for i := 0; i < len(rs); {
+			j := i
+			for j+1 < len(rs) && rs[j+1] <= rs[j]+1 {
+				j++
+			}
+			if i == j {
+				parts = append(parts, "(str.to_re "+smtChar(rs[i])+")")
+			} else {
+				parts = append(parts, "(re.range "+smtChar(rs[i])+" "+smtChar(rs[j])+")")
+			}
+			i = j + 1
+		}
+		cls := strings.Join(parts, " ")
+		if len(parts) > 1 {
+			cls = "(re.union " + cls + ")"
+		}
+		// a concatenation is over the alphabet iff each atom is; atoms of known shape are settled here
+		over := func(chars string) bool {
+			for _, c := range chars {
+				if !strings.ContainsRune(alpha, c) {
+					return false
+				}
+			}
+			return true
+		}
+		var conj []*Term
+		for _, at := range catAtoms(strTerm(args[0])) {
+			switch {
+			case at.Op == "cs":
+				if !over(at.S) {
+					return false
+				}
+			case at.Op == "var" && ex.plainVars[at] && over("abcdefghijklmnopqrstuvwxyz"):
+			case at.Op == "var" && ex.isUUIDVar(at) && over("0123456789abcdef-"):
+			default:
+				conj = append(conj, mkStrOp("str.in_re", SBool, at, mkRaw("(re.* "+cls+")")))
+			}
+		}
+		return lower(mkAnd(conj...))
 	})
 	reg(rt+"StrPlain", func(ex *Exec, fn *ssa.Function, args []Value, site string) Value {
 		// non-empty, lower-case letters only
@@ -845,6 +916,26 @@ func init() {
 		if aok && bok && cok {
 			return strings.ReplaceAll(a, b, c)
 		}
+		if bok && cok && len(b) == 1 {
+			// a one-character pattern cannot match across atoms: replace atom by atom; a single symbolic character
+			// (str.from_code) is decided against the pattern
+			var out []*Term
+			for _, at := range catAtoms(strTerm(args[0])) {
+				switch {
+				case at.Op == "cs":
+					out = append(out, mkStr(strings.ReplaceAll(at.S, b, c)))
+				case at.Op == "str.from_code":
+					if ex.decideBool(mkEq(at.Args[0], mkInt(int64(b[0])))) {
+						out = append(out, mkStr(c))
+					} else {
+						out = append(out, at)
+					}
+				default:
+					out = append(out, mkStrOp("str.replace_all", SStr, at, mkStr(b), mkStr(c)))
+				}
+			}
+			return lower(mkConcat(out...))
+		}
 		return lower(mkStrOp("str.replace_all", SStr, strTerm(args[0]), strTerm(args[1]), strTerm(args[2])))
 	})
 	reg("strings.Split", func(ex *Exec, fn *ssa.Function, args []Value, site string) Value {
@@ -905,15 +996,7 @@ func init() {
 		}
 		s, ok := args[1].(string)
 		if !ok {
-			// a symbolic subject: supported when the solver shows it cannot contain a match (identity), otherwise explode
-			t := strTerm(args[1])
-			if ra.re.String() == `[^a-zA-Z0-9-.]+` {
-				safe := mkStrOp("str.in_re", SBool, t, mkRaw("(re.* (re.union (re.range \"a\" \"z\") (re.range \"A\" \"Z\") (re.range \"0\" \"9\") (str.to_re \"-\") (str.to_re \".\")))"))
-				if ex.decideBool(safe) {
-					return args[1]
-				}
-			}
-			panic(pathAbort{"unsupported: regexp replace on a symbolic string that may contain a match"})
+			return ex.regexpReplaceSym(ra.re, strTerm(args[1]), args[2], site)
 		}
 		return ra.re.ReplaceAllStringFunc(s, func(m string) string {
 			r := ex.callValue(args[2], []Value{m}, site)
@@ -995,6 +1078,15 @@ type regexpAbs struct{ re *regexp.Regexp }
 type uuidVal struct{ s Value }
 
 // freshUUID: a fresh string of the canonical UUID shape (hex digits and dashes), distinct from earlier ones.
+func (ex *Exec) isUUIDVar(t *Term) bool {
+	for _, u := range ex.uuids {
+		if u == t {
+			return true
+		}
+	}
+	return false
+}
+
 func (ex *Exec) freshUUID() Value {
 	if ex.concreteMode() {
 		ex.nuuid++
@@ -1007,4 +1099,124 @@ func (ex *Exec) freshUUID() Value {
 	}
 	ex.uuids = append(ex.uuids, v)
 	return v
+}
+
+// classOfPlus returns the rune ranges of C when the pattern is C+ for a character class C (after the parser has
+// applied negation and case folding), which is the only symbolic-subject shape supported.
+func classOfPlus(re *regexp.Regexp) ([]rune, bool) {
+	rs, err := syntax.Parse(re.String(), syntax.Perl)
+	if err != nil || rs.Op != syntax.OpPlus || len(rs.Sub) != 1 || rs.Sub[0].Op != syntax.OpCharClass {
+		return nil, false
+	}
+	return rs.Sub[0].Rune, true
+}
+
+const maxCodePoint = 0x2FFFF // the solvers' string alphabet
+
+// regexpReplaceSym: ReplaceAllStringFunc on a symbolic subject for patterns of the form C+. Constant atoms are matched
+// concretely; a single symbolic character (str.from_code c) is decided against the class ranges by the solver, a
+// matched one is pinned to the low end of its range (the replacement callback then runs concretely); any other
+// symbolic atom must provably contain no character of the class.
+func (ex *Exec) regexpReplaceSym(re *regexp.Regexp, t *Term, cb Value, site string) Value {
+	rng, ok := classOfPlus(re)
+	if !ok {
+		panic(pathAbort{"unsupported: regexp replace on a symbolic string for pattern " + re.String()})
+	}
+	inClass := func(r rune) bool {
+		for i := 0; i+1 < len(rng); i += 2 {
+			if rng[i] <= r && r <= rng[i+1] {
+				return true
+			}
+		}
+		return false
+	}
+	var out []*Term
+	run := ""
+	flush := func() {
+		if run == "" {
+			return
+		}
+		r := ex.callValue(cb, []Value{run}, site)
+		run = ""
+		out = append(out, strTerm(r))
+	}
+	for _, at := range catAtoms(t) {
+		switch {
+		case at.Op == "cs":
+			for _, ch := range at.S {
+				if inClass(ch) {
+					run += string(ch)
+				} else {
+					flush()
+					out = append(out, mkStr(string(ch)))
+				}
+			}
+		case at.Op == "str.from_code":
+			c := at.Args[0]
+			alts := []*Term{}
+			var los []rune
+			for i := 0; i+1 < len(rng); i += 2 {
+				lo, hi := rng[i], rng[i+1]
+				if lo > maxCodePoint {
+					continue
+				}
+				if hi > maxCodePoint {
+					hi = maxCodePoint
+				}
+				alts = append(alts, mkAnd(mkIntCmp("<=", mkInt(int64(lo)), c), mkIntCmp("<=", c, mkInt(int64(hi)))))
+				los = append(los, lo)
+			}
+			var none []*Term
+			for _, a := range alts {
+				none = append(none, mkNot(a))
+			}
+			alts = append(alts, mkAnd(none...))
+			k := ex.choose(alts)
+			if k == len(alts)-1 {
+				flush()
+				out = append(out, at)
+			} else {
+				ex.assume(mkEq(c, mkInt(int64(los[k]))))
+				run += string(los[k])
+			}
+		default:
+			// complement of the class as an SMT regular expression
+			var parts []string
+			prev := rune(0)
+			for i := 0; i+1 < len(rng); i += 2 {
+				if rng[i] > prev {
+					parts = append(parts, fmt.Sprintf("(re.range %s %s)", smtChar(prev), smtChar(rng[i]-1)))
+				}
+				prev = rng[i+1] + 1
+			}
+			if prev <= maxCodePoint {
+				parts = append(parts, fmt.Sprintf("(re.range %s %s)", smtChar(prev), smtChar(maxCodePoint)))
+			}
+			cls := strings.Join(parts, " ")
+			if len(parts) > 1 {
+				cls = "(re.union " + cls + ")"
+			}
+			safe := mkStrOp("str.in_re", SBool, at, mkRaw("(re.* "+cls+")"))
+			if len(parts) == 0 {
+				safe = mkEq(at, mkStr(""))
+			}
+			if !ex.decideBool(safe) {
+				panic(pathAbort{"unsupported: regexp replace on a symbolic string that may contain a match"})
+			}
+			flush()
+			out = append(out, at)
+		}
+	}
+	flush()
+	return lower(mkConcat(out...))
+}
+
+func smtChar(r rune) string {
+	if r > maxCodePoint {
+		r = maxCodePoint
+	}
+	if r >= 0x20 && r < 0x7f && r != '"' && r != '\\' {
+		return "\"" + string(r) + "\""
+	}
+	return fmt.Sprintf("\"\\u{%x}\"", r)
 }
